@@ -224,7 +224,18 @@ impl<'a> Sim<'a> {
             m.insert("event_id".into(), J::Str(format!("${local}:{host}")));
         }
         if self.t.chance(1, 3) {
-            m.insert("unsigned".into(), o(vec![("age_ts", J::Int(ts))]));
+            let mut u = vec![("age_ts", J::Int(ts))];
+            if d.pad_target.is_some() && self.t.chance(1, 2) {
+                // a large `unsigned` must not count towards the size limit
+                u.push(("org.x.big", J::Str("u".repeat(self.t.range(100, 60_000) as usize))));
+                self.bump("size.boundary-with-large-unsigned");
+            }
+            m.insert("unsigned".into(), o(u));
+        }
+        if self.t.chance(1, 12) {
+            // an event that already carries a hash of another algorithm
+            m.insert("hashes".into(), o(vec![("org.x.blake", J::s("AAAA"))]));
+            self.bump("sign.preexisting-hashes");
         }
         let mut j = J::Obj(m);
         gen::top_level_extras(self.t, &mut j);
